@@ -67,6 +67,17 @@ def box_aabb(box2origin, size):
     return axis_aligned_bounding_box(vertices)
 
 
+def _circle_extent(axis):
+    """Half extents of a unit circle with the given unit axis along x, y, z.
+
+    This is sqrt(1 - axis ** 2), computed from the other two components of the
+    axis: 1 - axis ** 2 cancels catastrophically for an axis that is almost
+    aligned with a coordinate axis (and can even become negative).
+    """
+    sq = axis * axis
+    return np.sqrt(np.array([sq[1] + sq[2], sq[0] + sq[2], sq[0] + sq[1]]))
+
+
 def cylinder_aabb(cylinder2origin, radius, length):
     """Compute axis-aligned bounding box of cylinder.
 
@@ -92,7 +103,7 @@ def cylinder_aabb(cylinder2origin, radius, length):
     # AABB of a cylinder is the same as the AABB of its caps,
     # see https://iquilezles.org/articles/diskbbox/
     axis = cylinder2origin[:3, 2]
-    extent = 0.5 * length * np.abs(axis) + radius * np.sqrt(np.maximum(0.0, 1.0 - axis * axis))
+    extent = 0.5 * length * np.abs(axis) + radius * _circle_extent(axis)
     return cylinder2origin[:3, 3] - extent, cylinder2origin[:3, 3] + extent
 
 
@@ -170,7 +181,7 @@ def disk_aabb(center, radius, normal):
     maxs : array, shape (3,)
         Maximum coordinates.
     """
-    e = radius * np.sqrt(np.maximum(0.0, 1.0 - normal * normal))
+    e = radius * _circle_extent(normal)
     return center - e, center + e
 
 
@@ -198,8 +209,7 @@ def cone_aabb(cone2origin, radius, height):
     """
     pa = cone2origin[:3, 3]
     pb = cone2origin[:3, 3] + height * cone2origin[:3, 2]
-    a = pb - pa
-    e = np.sqrt(np.maximum(0.0, 1.0 - a * a / (height * height)))
+    e = _circle_extent(cone2origin[:3, 2])
     return np.minimum(pa - e * radius, pb), np.maximum(pa + e * radius, pb)
 
 
